@@ -120,6 +120,27 @@ def random_cases(rng, n):
                    maxsteps=rng.choice([BIG, BIG, BIG, 3, 10]))
 
 
+def long_cases(rng, n):
+    """Long runs (hundreds of steps) with requested times on multiples of
+    the step: round-off in t accumulates over many iterations."""
+    for i in range(n):
+        tf = rng.choice([1.0, 30.0, 100.0, 10.0, 3.0])
+        nst = rng.choice([300, 500, 800, 1000, 1500])
+        dt0 = rng.choice([0.1, 0.01, 0.001, tf / nst])
+        if tf / dt0 > 1600:
+            dt0 = tf / 1600
+        if tf / dt0 < 200:
+            dt0 = tf / 250.0
+        ns = int(tf / dt0)
+        ks = sorted(set(rng.randint(ns // 4, ns - 1) for k in range(
+            rng.choice([3, 6, 12]))))
+        outs = [dt0 * k for k in ks]
+        yield dict(id='L%d' % i, exact=False, e=2, q=tf * 2.0 ** -28, tf=tf,
+                   dt0=dt0, pfreq=rng.choice([1000, 100, 7]), outs=outs,
+                   ndamp=rng.choice([0, 0, 5, 50]), adaptive=False, props=[],
+                   maxsteps=BIG)
+
+
 def run_cases(chk, cases, nproc=16):
     """Drive the real solver over `cases`; returns list of traces."""
     sc = chk.scratch
@@ -143,6 +164,7 @@ def run_cases(chk, cases, nproc=16):
 
 
 def validate(chk, traces, per_batch=400):
+    traces = sorted(traces, key=lambda t: len(t.get('log', [])))
     sc = chk.scratch
     errs = [t for t in traces if 'error' in t]
     ok = [t for t in traces if 'error' not in t and 'skipped' not in t]
@@ -224,8 +246,10 @@ def run():
             rng.shuffle(allx)
             cases = allx[:6000]
             cases += list(random_cases(rng, 1500))
+            cases += list(long_cases(rng, 48))
         else:
-            cases = allx + list(random_cases(rng, 20000))
+            cases = allx + list(random_cases(rng, 20000)) + \
+                list(long_cases(rng, 600))
     traces = run_cases(chk, cases)
     by_case = {c['id']: c for c in cases}
     by_tr = {t['id']: t for t in traces}
